@@ -45,14 +45,14 @@ func C12() int {
 			logs[i].items = append(logs[i].items, rawItem("other", o, i))
 		}
 	}
-	fpairs := [][2]Flags{{{W: true}, {}}, {{W: true, N: true, B: true, I: true, R: sp("[x]")}, {N: true, B: true, I: true, R: sp("[x]")}}, {{W: true, Enc: true}, {Enc: true}}}
+	fpairs := [][2]Flags{{{W: true}, {}}, {{W: true, N: true, B: true, I: true, R: sp("[x]")}, {N: true, B: true, I: true, R: sp("[x]")}}, {{W: true, Enc: true}, {Enc: true}}, {{W: true, F: "shop"}, {F: "shop"}}}
 	cells := map[string]int{}
 	var cmu sync.Mutex
 	parallelDo(nlogs, func(li int) {
 		lg := logs[li]
 		fp := fpairs[li%len(fpairs)]
-		if li%len(fpairs) == 2 && li%9 != 2 {
-			fp = fpairs[0] // encrypt pairs are a ninth of the logs
+		if li%len(fpairs) == 2 && li%12 != 2 {
+			fp = fpairs[0] // encrypt pairs are a twelfth of the logs
 		}
 		lines := make([][]byte, len(lg.items))
 		for i, it := range lg.items {
